@@ -24,8 +24,9 @@ def run_property(prop: str, repo: Path, tier: str, seed: int, write_evidence: bo
         ctx = Ctx(prop, repo, tier)
         ctx.quiet = quiet
         mod.run(ctx)
-        from .rules.common import check_params_stable
+        from .rules.common import check_decorators, check_params_stable
         check_params_stable(ctx)
+        check_decorators(ctx)
         extra = {}
         if tier == "thorough":
             if hasattr(mod, "thorough"):
